@@ -220,7 +220,7 @@ func runItem(prop, tier string, idx int, deadline time.Time, maxExecs int) *Item
 			}
 		}
 		// differential against the unmodified package
-		if pb := os.Getenv("MC_PRISTINE"); pb != "" {
+		if pb := os.Getenv("MC_PRISTINE"); pb != "" && !it.Chunk.NoPristine {
 			ctx, cancel := context.WithTimeout(context.Background(), 15*time.Minute)
 			defer cancel()
 			cmd := exec.CommandContext(ctx, pb, "chunk", prop, tier, strconv.Itoa(chunkIndex(prop, tier, it.Name)))
